@@ -63,8 +63,37 @@ fn conformance(verbose: bool) -> i32 {
             }
         }
     }
-    println!("conformance: ok={} bad={} skipped={}", ok, bad, skipped);
-    if bad > 0 || ok < 70 { 2 } else { 0 }
+    // the hand-written table: verdicts known from the Go specification
+    let mut t_ok = 0;
+    let mut t_bad = 0;
+    for (name, src, want) in gosem::table::table() {
+        let got = match gosem::analyse(&src) {
+            gosem::GoVerdict::Ok(p) => {
+                let r = gosem::run::run_main(p, 1_000_000);
+                match r.end {
+                    gosem::run::End::Ok => format!("ok:{}", String::from_utf8_lossy(&r.stdout)),
+                    gosem::run::End::Panic(_) => format!("panic:{}", String::from_utf8_lossy(&r.stdout)),
+                    other => format!("end:{:?}", other),
+                }
+            }
+            gosem::GoVerdict::Rejected(errs) => format!("reject:{}", errs[0].rule),
+            gosem::GoVerdict::Unsupported(m) => format!("unsupported:{}", m),
+        };
+        let expect = match &want {
+            gosem::table::Want::Ok(o) => format!("ok:{}", o),
+            gosem::table::Want::Reject(r) => format!("reject:{}", r),
+            gosem::table::Want::Panics(o) => format!("panic:{}", o),
+        };
+        if got == expect {
+            t_ok += 1;
+            if verbose { println!("table {}: {}", name, got.replace('\n', "\\n")); }
+        } else {
+            t_bad += 1;
+            println!("table {}: MISMATCH expected {:?} got {:?}", name, expect, got);
+        }
+    }
+    println!("conformance: ok={} bad={} skipped={} table_ok={} table_bad={}", ok, bad, skipped, t_ok, t_bad);
+    if bad > 0 || ok < 70 || t_bad > 0 { 2 } else { 0 }
 }
 
 fn main() {
